@@ -15,6 +15,22 @@ class Unknown:
 UNKNOWN = Unknown()
 
 
+class Sym:
+    """A value that is not a compile-time constant, carried as the canonical text of the expression that computes it
+    (with every propagated constant and symbolic local substituted)."""
+    def __init__(self, text):
+        self.text = text
+
+    def __repr__(self):
+        return f'Sym({self.text})'
+
+    def __eq__(self, o):
+        return isinstance(o, Sym) and o.text == self.text
+
+    def __hash__(self):
+        return hash(('Sym', self.text))
+
+
 class Raised(Exception):
     def __init__(self, kind, node):
         self.kind, self.node = kind, node
@@ -30,12 +46,58 @@ class Undecided(Exception):
 
 
 class PE:
-    def __init__(self, funcs=None, text_env=None, max_steps=20000):
+    def __init__(self, funcs=None, text_env=None, max_steps=20000, symbolic=False):
         self.funcs = funcs or {}
         self.text_env = text_env or {}
         self.steps = 0
         self.max_steps = max_steps
         self.warnings = []
+        self.symbolic = symbolic
+        self.calls = []          # (callee text, [positional values], {keyword: value}) of calls that were not evaluated
+
+    # ----------------------------------------------------------------- symbolic text
+    def symtext(self, e, env):
+        import copy
+        pe = self
+
+        class _S(ast.NodeTransformer):
+            def visit_Name(self_, n):
+                if isinstance(n.ctx, ast.Load) and n.id in env:
+                    v = env[n.id]
+                    if isinstance(v, Sym):
+                        return ast.parse(v.text, mode='eval').body
+                    if isinstance(v, (str, int, float, bool, type(None))):
+                        return ast.Constant(v)
+                return n
+
+            def visit_JoinedStr(self_, n):
+                self_.generic_visit(n)
+                parts = []
+                for v in n.values:
+                    if isinstance(v, ast.Constant):
+                        parts.append(str(v.value))
+                    elif isinstance(v, ast.FormattedValue) and isinstance(v.value, ast.Constant) and v.format_spec is None and v.conversion in (-1, None):
+                        parts.append(str(v.value.value))
+                    else:
+                        return n
+                return ast.Constant(''.join(parts))
+
+            def visit_Subscript(self_, n):
+                self_.generic_visit(n)
+                sl = n.slice
+                if isinstance(sl, ast.Call) and dotted(sl.func) == 'slice' and 1 <= len(sl.args) <= 3 and not sl.keywords:
+                    a = list(sl.args)
+                    none = lambda x: None if isinstance(x, ast.Constant) and x.value is None else x
+                    n.slice = ast.Slice(lower=none(a[0]) if len(a) > 1 else None, upper=none(a[1]) if len(a) > 1 else none(a[0]), step=none(a[2]) if len(a) == 3 else None)
+                return n
+        t = _S().visit(copy.deepcopy(e))
+        ast.fix_missing_locations(t)
+        return unparse(t)
+
+    def unknown(self, e, env):
+        if self.symbolic:
+            return Sym(self.symtext(e, env))
+        return UNKNOWN
 
     # ----------------------------------------------------------------- expressions
     def ev(self, e, env):
@@ -50,7 +112,7 @@ class PE:
         if isinstance(e, ast.Name):
             if e.id in env:
                 return env[e.id]
-            return UNKNOWN
+            return self.unknown(e, env)
         if isinstance(e, (ast.Tuple, ast.List, ast.Set)):
             vals = [self.ev(x, env) for x in e.elts]
             if any(v is UNKNOWN for v in vals):
@@ -63,6 +125,15 @@ class PE:
                 return UNKNOWN
             return dict(zip(ks, vs))
         if isinstance(e, ast.JoinedStr):
+            if self.symbolic:
+                t = self.symtext(e, env)
+                try:
+                    v = ast.literal_eval(t)
+                    if isinstance(v, str):
+                        return v
+                except (ValueError, SyntaxError):
+                    pass
+                return Sym(t)
             return '<text>'
         if isinstance(e, ast.UnaryOp) and isinstance(e.op, ast.Not):
             v = self.ev(e.operand, env)
@@ -110,15 +181,43 @@ class PE:
                 return UNKNOWN
         if isinstance(e, ast.Subscript):
             b = self.ev(e.value, env)
+            if isinstance(b, Sym) or (self.symbolic and isinstance(e.slice, ast.Slice)):
+                return self.unknown(e, env)
             if b is UNKNOWN or isinstance(e.slice, ast.Slice):
                 return UNKNOWN
             k = self.ev(e.slice, env)
+            if isinstance(k, Sym):
+                return self.unknown(e, env)
             if k is UNKNOWN:
                 return UNKNOWN
             try:
                 return b[k]
             except (KeyError, IndexError, TypeError):
                 raise Raised('KeyError' if isinstance(b, dict) else 'IndexError', e)
+        if isinstance(e, ast.DictComp) and len(e.generators) == 1:
+            g = e.generators[0]
+            it = self.ev(g.iter, env)
+            if it is UNKNOWN or isinstance(it, Sym):
+                return self.unknown(e, env) if self.symbolic else UNKNOWN
+            out = {}
+            for x in list(it):
+                env2 = dict(env)
+                if isinstance(g.target, ast.Name):
+                    env2[g.target.id] = x
+                elif isinstance(g.target, ast.Tuple) and isinstance(x, (tuple, list)) and len(x) == len(g.target.elts):
+                    for t_, y in zip(g.target.elts, x):
+                        env2[t_.id] = y
+                else:
+                    return UNKNOWN
+                conds = [self.ev(c, env2) for c in g.ifs]
+                if any(not isinstance(c, bool) for c in conds):
+                    return UNKNOWN
+                if all(conds):
+                    k = self.ev(e.key, env2)
+                    if k is UNKNOWN or isinstance(k, Sym):
+                        return UNKNOWN
+                    out[k] = self.ev(e.value, env2)
+            return out
         if isinstance(e, ast.ListComp) and len(e.generators) == 1:
             g = e.generators[0]
             it = self.ev(g.iter, env)
@@ -138,8 +237,13 @@ class PE:
                     out.append(v)
             return out
         if isinstance(e, ast.Call):
-            return self.call(e, env)
-        return UNKNOWN
+            r = self.call(e, env)
+            if r is UNKNOWN and self.symbolic:
+                return self.unknown(e, env)
+            return r
+        if isinstance(e, ast.Attribute):
+            return self.unknown(e, env)
+        return self.unknown(e, env) if self.symbolic and isinstance(e, (ast.BinOp, ast.UnaryOp, ast.Starred)) else UNKNOWN
 
     def call(self, e, env):
         d = dotted(e.func)
@@ -147,7 +251,20 @@ class PE:
         if d in ('warnings.warn', 'print', 'log'):
             self.warnings.append(unparse(e)[:60])
             return None
-        if any(a is UNKNOWN for a in args):
+        if self.symbolic and any(k.arg is None for k in e.keywords):
+            kw = {}
+            for k in e.keywords:
+                v = self.ev(k.value, env)
+                if k.arg is None:
+                    if isinstance(v, dict):
+                        kw.update(v)
+                    else:
+                        kw['**'] = v
+                else:
+                    kw[k.arg] = v
+            self.calls.append((unparse(e.func), args, kw))
+            return Sym(unparse(e.func) + '(...)')
+        if any(a is UNKNOWN or isinstance(a, Sym) for a in args):
             return UNKNOWN
         if d in ('len', 'tuple', 'list', 'set', 'sorted', 'bool', 'str', 'any', 'all') and len(args) == 1:
             try:
@@ -173,8 +290,11 @@ class PE:
             if isinstance(recv, list) and m == 'extend' and len(args) == 1:
                 recv.extend(args[0])
                 return None
+            if isinstance(recv, dict) and m == 'update' and len(args) == 1 and isinstance(args[0], dict):
+                recv.update(args[0])
+                return None
             if isinstance(recv, (dict,)) and m in ('keys', 'values', 'items') and not args:
-                return list(getattr(recv, m)())
+                return [tuple(x) if m == 'items' else x for x in getattr(recv, m)()]
             if isinstance(recv, str) and m in ('startswith', 'endswith', 'lower', 'upper') and len(args) <= 1:
                 return getattr(recv, m)(*args)
             return UNKNOWN
@@ -211,7 +331,7 @@ class PE:
         if isinstance(s, ast.Expr):
             self.ev(s.value, env)
             return
-        if isinstance(s, ast.Pass):
+        if isinstance(s, (ast.Pass, ast.Delete)):
             return
         if isinstance(s, ast.Return):
             raise Returned(self.ev(s.value, env) if s.value is not None else None)
@@ -235,6 +355,13 @@ class PE:
                 for x, y in zip(t.elts, v):
                     env[x.id] = y
                 return
+            if isinstance(t, ast.Subscript) and isinstance(t.value, ast.Name) and isinstance(env.get(t.value.id), dict) and not isinstance(t.slice, ast.Slice):
+                k = self.ev(t.slice, env)
+                if k is not UNKNOWN and not isinstance(k, Sym):
+                    env[t.value.id][k] = v
+                    return
+            if self.symbolic:
+                return          # a store the propagation does not track (array element, attribute)
             raise Undecided(f'assignment {unparse(s)[:50]}')
         if isinstance(s, ast.AugAssign) and isinstance(s.target, ast.Name) and isinstance(s.op, ast.Add):
             cur, v = env.get(s.target.id, UNKNOWN), self.ev(s.value, env)
@@ -253,6 +380,14 @@ class PE:
             return
         if isinstance(s, ast.For) and isinstance(s.target, ast.Name):
             it = self.ev(s.iter, env)
+            if isinstance(it, Sym) and self.symbolic:
+                # an iterable that is not a constant: the body is propagated once for a generic element
+                env[s.target.id] = Sym(f'each({s.target.id} in {it.text})')
+                try:
+                    self.block(s.body, env)
+                except (_Break, _Continue):
+                    pass
+                return
             if it is UNKNOWN:
                 raise Undecided(f'loop over {unparse(s.iter)[:40]}')
             broke = False
@@ -267,6 +402,13 @@ class PE:
                     continue
             if not broke:
                 self.block(s.orelse, env)
+            return
+        if isinstance(s, ast.With) and self.symbolic:
+            for it in s.items:
+                v = self.ev(it.context_expr, env)
+                if isinstance(it.optional_vars, ast.Name):
+                    env[it.optional_vars.id] = v if not (v is UNKNOWN) else Sym(unparse(it.context_expr))
+            self.block(s.body, env)
             return
         if isinstance(s, ast.Break):
             raise _Break()
